@@ -21,7 +21,9 @@ CFG = {
                  "kind; each in minimal and fully parenthesised form. praw: mutated and hand-written malformed token streams, accept/reject and Display. "
                  "eval: expression x context (each free variable bound to a value of every kind or unbound), `{{ (e) | probe }}` value or `{{ e }}` ok/error vs the "
                  "reference evaluator (cases the documentation leaves open count as evaluated but not as non-trivial evidence of agreement); systematic: every "
-                 "operand kind x every operator shape with `throw()` planted in the operand that must not be evaluated.",
+                 "operand kind x every operator shape with `throw()` planted in the operand that must not be evaluated. Oracle on every probe-mode case: the "
+                 "directly printed `{{ e }}` (the form the peephole pass fuses) gives the text of `{{ v }}` for the value v that e evaluates to, and fails exactly "
+                 "when e fails or is undefined; ternary/and/or shapes with bare variables and dotted paths (bound, unbound) in every branch.",
     "trusted_base": TB_COMMON + [
         "axioms: none (every C02 theorem is 'Closed under the global context')",
         "tools/gen/bp.py: transcribes binary_binding_power / unary_binding_power / TERNARY_L_BP and the documented precedence rows",
